@@ -1,5 +1,8 @@
 (* Proofs for C06: the invariant [Inv] of Model/AnalysisSpec.v is established by
-   [init] and preserved by every step of the collector. *)
+   [init] and preserved by every step of the collector on a stream the parser can
+   emit ([step_inv], [run_inv], [reachable_inv]); the recipe that is returned
+   satisfies [recipe_ok] ([analyse_ok]), which gives [blind_indexing]; the code
+   before the repair c9128f1 did not ([no_empty_refuted_before_fix]). *)
 From CL Require Import Base.StrLemmas Model.AnalysisSpec.
 From Coq Require Import Lia ZArith.
 Open Scope nat_scope.
@@ -698,4 +701,424 @@ Proof.
     apply Inv_push_cookware; auto.
   - intro H. injection H as <- <-. destruct T as [T1 T2].
     apply Inv_push_cookware; auto.
+Qed.
+
+(* ---- timers, text items, inline quantities ---- *)
+Lemma timer_inv s t s1 i items :
+  Inv s -> a_block s = Some (BStep items) ->
+  item_event_ok (ETimer t) = true ->
+  timer unit_class x s t = (s1, i) ->
+  Inv (set_block s1 (Some (BStep (items ++ [ITimer i])))).
+Proof.
+  intros I B Ok. pose proof I as [Ho Hri Hrc Hrf Hs Hc Hn Hne Hb Ht Hv].
+  unfold timer.
+  set (err := match option_map (quantity_info false) (pt_quantity t) with Some _ => _ | None => _ end).
+  clearbody err. intro H. injection H as <- <-.
+  apply (Inv_push_item s _ items (ITimer (length (a_timers s)))); try reflexivity; try exact I; auto.
+  - intros [ | | | ]; cbn; auto. rewrite app_length. cbn. split; [reflexivity|lia].
+  - apply tbl_ext_refl.
+  - cbn. apply Forall_app. split; [exact Ht|]. constructor; [|constructor].
+    unfold timer_ok. cbn. cbn in Ok. destruct (pt_name t), (pt_quantity t); cbn in *;
+      try discriminate; try (left; discriminate); right; discriminate.
+  - cbn. intro E. apply orb_false_iff in E as [E1 E2]. exact (Hv E1).
+Qed.
+
+Lemma text_item_inv s items tx :
+  Inv s -> a_block s = Some (BStep items) -> tx <> [] ->
+  Inv (set_block s (Some (BStep (items ++ [IText tx])))).
+Proof.
+  intros I B NE. pose proof I as [Ho Hri Hrc Hrf Hs Hc Hn Hne Hb Ht Hv].
+  apply (Inv_push_item s _ items (IText tx)); try reflexivity; try exact I; auto.
+  - intros [ | | | ]; cbn; auto.
+  - apply tbl_ext_refl.
+Qed.
+
+Lemma inline_item_inv s items :
+  Inv s -> a_block s = Some (BStep items) ->
+  Inv (set_block (set_inline s (S (a_inline s))) (Some (BStep (items ++ [IInline (a_inline s)])))).
+Proof.
+  intros I B. pose proof I as [Ho Hri Hrc Hrf Hs Hc Hn Hne Hb Ht Hv].
+  apply (Inv_push_item s _ items (IInline (a_inline s))); try reflexivity; try exact I; auto.
+  - intros [ | | | ]; cbn; auto.
+  - apply tbl_ext_refl.
+Qed.
+
+Lemma is_nil_false {A} (l : list A) : is_nil l = false -> l <> [].
+Proof. destruct l; [discriminate|]. intros _. discriminate. Qed.
+
+Lemma split_iq_inv fuel : forall hay items n items' n' s,
+  Inv (set_block (set_inline s n) (Some (BStep items))) ->
+  split_iq find_iq fuel hay items n = Done (items', n') ->
+  Inv (set_block (set_inline s n') (Some (BStep items'))).
+Proof.
+  induction fuel as [|f IH]; intros hay items n items' n' s I; cbn [split_iq].
+  - destruct (find_iq hay) as [[before after]|]; [discriminate|].
+    intro H. injection H as <- <-.
+    destruct (is_nil hay) eqn:E; [exact I|].
+    exact (text_item_inv _ items hay I eq_refl (is_nil_false _ E)).
+  - destruct (find_iq hay) as [[before after]|].
+    + apply IH.
+      assert (I1 : Inv (set_block (set_inline s n)
+                          (Some (BStep (if is_nil before then items else items ++ [IText before]))))).
+      { destruct (is_nil before) eqn:E; [exact I|].
+        exact (text_item_inv _ items before I eq_refl (is_nil_false _ E)). }
+      exact (inline_item_inv _ _ I1 eq_refl).
+    + intro H. injection H as <- <-.
+      destruct (is_nil hay) eqn:E; [exact I|].
+      exact (text_item_inv _ items hay I eq_refl (is_nil_false _ E)).
+Qed.
+
+Lemma in_step_inv s e items s' :
+  Inv s -> a_block s = Some (BStep items) -> item_event_ok e = true ->
+  in_step ci_key find_iq unit_class x s e items = Done s' -> Inv s'.
+Proof.
+  intros I B Ok. destruct e; cbn [in_step]; try discriminate.
+  - destruct (dm_eqb (a_define s) DMComponents); [intro H; injection H as <-; exact I|].
+    destruct (x_inline x).
+    + destruct (split_iq _ _ _ _ _) as [[items' n']|] eqn:E; cbn [obind]; [|discriminate].
+      intro H. injection H as <-. eapply split_iq_inv; [|exact E].
+      eapply Inv_frame; eauto.
+    + intro H. injection H as <-. apply text_item_inv; auto.
+      cbn in Ok. apply is_nil_false. now apply negb_true_iff in Ok.
+  - destruct (ingredient ci_key x s i) as [[s1 k]|] eqn:E; cbn [obind]; [|discriminate].
+    intro H. injection H as <-. eapply ingredient_inv; eauto.
+  - destruct (cookware ci_key s c) as [[s1 k]|] eqn:E; cbn [obind]; [|discriminate].
+    intro H. injection H as <-. eapply cookware_inv; eauto.
+  - destruct (timer unit_class x s t) as [s1 k] eqn:E.
+    intro H. injection H as <-. eapply timer_inv; eauto.
+Qed.
+
+Lemma in_text_inv s e tx s' :
+  Inv s -> in_text input s e tx = Done s' -> Inv s'.
+Proof.
+  intros I. unfold in_text.
+  assert (C : forall sp,
+    (if negb (dm_eqb (a_define s) DMText) then Panic site_nontext_in_text
+     else match byte_slice input sp with
+          | Some sl => Done (set_block s (Some (BText (tx ++ sl))))
+          | None => Panic site_in_text_slice
+          end) = Done s' -> Inv s').
+  { intro sp. destruct (negb _); [discriminate|]. destruct (byte_slice input sp); [|discriminate].
+    intro H. injection H as <-. now apply Inv_set_block_nil. }
+  destruct e; try discriminate; try apply C.
+  intro H. injection H as <-. now apply Inv_set_block_nil.
+Qed.
+
+(* ---- the End event ---- *)
+Variable cfg : acfg.
+Variable yaml_ok : str -> bool.
+Hypothesis cfg_text : skip_empty_text cfg = true.
+Hypothesis cfg_step : skip_empty_step cfg = true.
+
+Lemma finish_block_inv s c s' :
+  Inv s ->
+  match c with
+  | CStep st => a_block s = Some (BStep (st_items st)) /\ st_number st = a_counter s
+  | CText t => block_items (a_block s) = []
+  end ->
+  finish_block cfg s c = Done s' -> Inv s' /\ a_block s' = None.
+Proof.
+  intros I P. unfold finish_block.
+  destruct (negb (skipped cfg c) && _) eqn:G.
+  - apply andb_true_iff in G as [G _]. apply negb_true_iff in G.
+    assert (Ipush : Inv (pushed_state s c)).
+    { apply Inv_push_content; [exact I|]. destruct c as [st|t]; cbn in G.
+      - rewrite cfg_step in G. cbn in G. destruct P. repeat split; auto. now apply is_nil_false.
+      - rewrite cfg_text in G. cbn in G. split; auto. now apply is_nil_false. }
+    destruct c as [st|t]; cbn [is_step].
+    + destruct (_ <=? _)%N; [discriminate|]. intro H. injection H as <-. split; [exact Ipush|reflexivity].
+    + intro H. injection H as <-. split; [exact Ipush|reflexivity].
+  - intro H. injection H as <-. split; [|reflexivity]. now apply Inv_set_block_nil.
+Qed.
+
+Lemma end_block_inv s k s' :
+  Inv s -> end_block cfg s k = Done s' -> Inv s' /\ a_block s' = None.
+Proof.
+  intros I. unfold end_block. destruct (a_block s) as [[items|t]|] eqn:B; [| |discriminate].
+  - destruct (block_kind_eqb k BKStep); [|discriminate].
+    apply finish_block_inv; auto.
+  - destruct (_ || _); [|discriminate].
+    apply finish_block_inv; auto. cbn. now rewrite B.
+Qed.
+
+(* ---- the shape of the stream and the block buffer ---- *)
+Definition linked (p : pstate) (s : astate) : Prop :=
+  a_halted s = true \/ (p = POut -> a_block s = None).
+
+Lemma metadata_block s k v : a_block (metadata x s k v) = a_block s.
+Proof.
+  unfold metadata.
+  repeat match goal with |- context [if ?b then _ else _] => destruct b end; reflexivity.
+Qed.
+
+Lemma metadata_inv s k v : Inv s -> Inv (metadata x s k v).
+Proof.
+  intro I. unfold metadata.
+  repeat match goal with |- context [if ?b then _ else _] => destruct b end;
+    auto using Inv_add_error, Inv_set_modes.
+Qed.
+
+Theorem step_inv p s e p' s' :
+  Inv s -> linked p s -> shape_step p e = Some p' ->
+  step ci_key yaml_ok find_iq unit_class input x cfg s e = Done s' ->
+  Inv s' /\ linked p' s'.
+Proof.
+  intros I L Sh. unfold step. destruct (a_halted s) eqn:Hh.
+  { intro H. injection H as <-. split; [exact I|]. left. exact Hh. }
+  destruct L as [L|L]; [congruence|].
+  destruct e; cbn [shape_step] in Sh.
+  - (* EYaml *) destruct p; [|discriminate]. injection Sh as <-.
+    intro H. injection H as <-. split; [now apply Inv_add_error|]. right. intros _. now apply L.
+  - (* EMetadata *) destruct p; [|discriminate]. injection Sh as <-.
+    intro H. injection H as <-. split; [now apply metadata_inv|]. right. intros _.
+    rewrite metadata_block. now apply L.
+  - (* ESection *) destruct p; [|discriminate]. injection Sh as <-.
+    intro H. injection H as <-. split; [apply Inv_section; auto|]. right. intros _. cbn. now apply L.
+  - (* EStart *) destruct p; [|discriminate]. injection Sh as <-.
+    intro H. injection H as <-. split; [|right; discriminate].
+    apply Inv_set_block_nil; auto. destruct (dm_eqb _ _); [reflexivity|]. destruct k; reflexivity.
+  - (* EEnd *) destruct p as [|k']; [discriminate|]. destruct (block_kind_eqb k k'); [|discriminate].
+    injection Sh as <-. intro H. apply end_block_inv in H; auto. destruct H as [I' B']. split; auto.
+    right. intros _. exact B'.
+  - (* EText *) destruct p as [|k']; [discriminate|].
+    destruct (item_event_ok (EText t)) eqn:Ok; [|discriminate]. injection Sh as <-.
+    destruct (a_block s) as [[items|tx]|] eqn:B; [| |discriminate]; intro H.
+    + split; [eapply in_step_inv; eauto|right; discriminate].
+    + split; [eapply in_text_inv; eauto|right; discriminate].
+  - (* EIngredient *) destruct p as [|[|]]; try discriminate.
+    destruct (item_event_ok (EIngredient i)) eqn:Ok; [|discriminate]. injection Sh as <-.
+    destruct (a_block s) as [[items|tx]|] eqn:B; [| |discriminate]; intro H.
+    + split; [eapply in_step_inv; eauto|right; discriminate].
+    + split; [eapply in_text_inv; eauto|right; discriminate].
+  - (* ECookware *) destruct p as [|[|]]; try discriminate.
+    destruct (item_event_ok (ECookware c)) eqn:Ok; [|discriminate]. injection Sh as <-.
+    destruct (a_block s) as [[items|tx]|] eqn:B; [| |discriminate]; intro H.
+    + split; [eapply in_step_inv; eauto|right; discriminate].
+    + split; [eapply in_text_inv; eauto|right; discriminate].
+  - (* ETimer *) destruct p as [|[|]]; try discriminate.
+    destruct (item_event_ok (ETimer t)) eqn:Ok; [|discriminate]. injection Sh as <-.
+    destruct (a_block s) as [[items|tx]|] eqn:B; [| |discriminate]; intro H.
+    + split; [eapply in_step_inv; eauto|right; discriminate].
+    + split; [eapply in_text_inv; eauto|right; discriminate].
+  - (* EError *) injection Sh as <-. intro H. injection H as <-. split; [now apply Inv_set_halted|].
+    left. reflexivity.
+  - (* EWarning *) injection Sh as <-. intro H. injection H as <-. split; [exact I|right; exact L].
+Qed.
+
+Lemma run_inv evs : forall p s p' s',
+  Inv s -> linked p s -> shape_run p evs = Some p' ->
+  run ci_key yaml_ok find_iq unit_class input x cfg s evs = Done s' ->
+  Inv s' /\ linked p' s'.
+Proof.
+  induction evs as [|e r IH]; intros p s p' s' I L; cbn [shape_run run].
+  - intros H1 H2. injection H1 as <-. injection H2 as <-. now split.
+  - destruct (shape_step p e) as [p1|] eqn:Sh; [|discriminate].
+    destruct (step _ _ _ _ _ _ _ s e) as [s1|] eqn:St; cbn [obind]; [|discriminate].
+    destruct (step_inv _ _ _ _ _ I L Sh St) as [I1 L1]. now apply IH.
+Qed.
+
+End Items.
+
+(* ------------------------------------------------------------------ the recipe that is returned *)
+Lemma rel_ok_nil : rel_ok [].
+Proof. intros [|i] c H; discriminate. Qed.
+
+Section Main.
+Variable ci_key : str -> str.
+Variable yaml_ok : str -> bool.
+Variable find_iq : str -> option (str * str).
+Variable unit_class : str -> N.
+Variable input : str.
+Variable x : aext.
+Notation Inv := (Inv ci_key).
+
+Lemma Inv_init : Inv init.
+Proof.
+  constructor; cbn; try (exact rel_ok_nil); try (constructor; fail); try reflexivity.
+  - split; [reflexivity|constructor].
+  - intros _. split; intros [|i] c H; discriminate.
+Qed.
+
+Lemma linked_init : linked POut init.
+Proof. right. reflexivity. Qed.
+
+Theorem reachable_inv cfg evs s :
+  skip_empty_text cfg = true -> skip_empty_step cfg = true ->
+  parser_shaped_prefix evs ->
+  run ci_key yaml_ok find_iq unit_class input x cfg init evs = Done s -> Inv s.
+Proof.
+  intros C1 C2 [p Sh] R.
+  exact (proj1 (run_inv ci_key find_iq unit_class input x cfg yaml_ok C1 C2 evs POut init p s
+                  Inv_init linked_init Sh R)).
+Qed.
+
+Lemma Inv_output s r :
+  Inv s -> output s = Some r ->
+  recipe_ok r /\ (a_errors s = false -> recipe_valid_ok ci_key r).
+Proof.
+  intros [Ho Hri Hrc Hrf Hs Hc Hn Hne Hb Ht Hv]. unfold output.
+  destruct (a_halted s); [discriminate|]. intro H. injection H as <-.
+  split; [constructor; cbn|exact Hv]; auto.
+  - intro k. rewrite occs_pushed. specialize (Ho k). unfold state_occs in Ho.
+    rewrite map_app, indices_app in Ho. apply incr_below_prefix in Ho.
+    destruct k; exact Ho.
+  - rewrite occs_pushed. unfold state_occs in Hrf. apply Forall_app in Hrf. tauto.
+  - unfold pushed_sections. destruct (section_is_empty (a_cur s)); auto.
+    apply Forall_app. split; auto.
+  - unfold pushed_sections. destruct (section_is_empty (a_cur s)) eqn:E; auto.
+    apply Forall_app. split; auto.
+Qed.
+
+Theorem analyse_ok cfg evs r v :
+  skip_empty_text cfg = true -> skip_empty_step cfg = true ->
+  parser_shaped_prefix evs ->
+  analyse ci_key yaml_ok find_iq unit_class input x cfg evs = Done (Some r, v) ->
+  recipe_ok r /\ (v = true -> recipe_valid_ok ci_key r).
+Proof.
+  intros C1 C2 Sh. unfold analyse.
+  destruct (run _ _ _ _ _ _ _ init evs) as [s|] eqn:R; cbn [obind]; [|discriminate].
+  intro H. injection H as Ho <-.
+  pose proof (reachable_inv cfg evs s C1 C2 Sh R) as I.
+  destruct (Inv_output s r I Ho) as [A B]. split; [exact A|].
+  unfold is_valid. intro V. apply andb_true_iff in V as [_ V]. apply negb_true_iff in V. auto.
+Qed.
+
+(* ---- the behaviour before the repair c9128f1: empty content was pushed ---- *)
+Definition ev_blank_text_block : list event := [EStart BKText; EEnd BKText].      (* ">" *)
+Definition ev_lone_escape : list event := [EStart BKStep; EEnd BKStep].           (* "\" *)
+
+Lemma recipe_ok_no_empty r sec c :
+  recipe_ok r -> In sec (r_sections r) -> In c (sec_content sec) -> content_is_empty c = false.
+Proof.
+  intros [_ _ _ _ Hs _ _] H1 H2. rewrite Forall_forall in Hs. destruct (Hs sec H1) as [_ Hc].
+  rewrite Forall_forall in Hc. specialize (Hc c H2). destruct c as [st|t]; cbn in *.
+  - destruct Hc as [Hc _]. destruct (st_items st); [congruence|reflexivity].
+  - destruct t; [congruence|reflexivity].
+Qed.
+
+Theorem no_empty_refuted_before_fix :
+  (exists r, parser_shaped ev_blank_text_block /\
+     analyse ci_key yaml_ok find_iq unit_class input x cfg0 ev_blank_text_block = Done (Some r, true) /\
+     ~ recipe_ok r) /\
+  (exists r, parser_shaped ev_lone_escape /\
+     analyse ci_key yaml_ok find_iq unit_class input x cfg0 ev_lone_escape = Done (Some r, true) /\
+     ~ recipe_ok r).
+Proof.
+  split; eexists; (split; [reflexivity|split; [vm_compute; reflexivity|]]); intro H.
+  - assert (E := recipe_ok_no_empty _ {| sec_name := None; sec_content := [CText []] |} (CText []) H).
+    cbn in E. assert (true = false) by (apply E; left; reflexivity). discriminate.
+  - assert (E := recipe_ok_no_empty _ {| sec_name := None;
+                    sec_content := [CStep {| st_items := []; st_number := 1 |}] |}
+                    (CStep {| st_items := []; st_number := 1 |}) H).
+    cbn in E. assert (true = false) by (apply E; left; reflexivity). discriminate.
+Qed.
+
+(* with the repair the same streams give a recipe without sections *)
+Example fixed_witnesses :
+  analyse ci_key yaml_ok find_iq unit_class input x cfgF ev_blank_text_block
+    = Done (Some {| r_sections := []; r_ingredients := []; r_cookware := []; r_timers := []; r_inline := 0 |}, true) /\
+  analyse ci_key yaml_ok find_iq unit_class input x cfgF ev_lone_escape
+    = Done (Some {| r_sections := []; r_ingredients := []; r_cookware := []; r_timers := []; r_inline := 0 |}, true).
+Proof. split; vm_compute; reflexivity. Qed.
+
+End Main.
+
+(* ------------------------------------------------------------------ blind indexing *)
+Lemma nth_error_firstn_some {A} (l : list A) n j a :
+  nth_error (firstn n l) j = Some a -> j < n /\ nth_error l j = Some a.
+Proof.
+  revert n j. induction l as [|y l IH]; intros [|n] [|j]; cbn; try discriminate.
+  - intro H. split; [lia|exact H].
+  - intro H. apply IH in H as [H1 H2]. split; [lia|exact H2].
+Qed.
+
+Lemma content_occs_intro si prev rest ci st it :
+  nth_error rest ci = Some (CStep st) -> In it (st_items st) ->
+  In (mk_occ si (prev ++ firstn ci rest) it) (content_occs si prev rest).
+Proof.
+  revert prev ci. induction rest as [|c rest IH]; intros prev [|ci]; cbn [nth_error]; try discriminate.
+  - intro H. injection H as ->. intro Hin. cbn. rewrite app_nil_r. apply in_or_app. left.
+    apply in_map. exact Hin.
+  - intros H Hin. cbn [content_occs firstn]. apply in_or_app. right.
+    replace (prev ++ c :: firstn ci rest) with ((prev ++ [c]) ++ firstn ci rest)
+      by (rewrite <- app_assoc; reflexivity).
+    now apply IH.
+Qed.
+
+Lemma sections_occs_intro b secs si sec ci st it :
+  nth_error secs si = Some sec -> nth_error (sec_content sec) ci = Some (CStep st) ->
+  In it (st_items st) ->
+  In (mk_occ (b + si) (firstn ci (sec_content sec)) it) (sections_occs b secs).
+Proof.
+  revert b si. induction secs as [|s secs IH]; intros b [|si]; cbn [nth_error]; try discriminate.
+  - intro H. injection H as ->. intros H1 H2. cbn. apply in_or_app. left. rewrite Nat.add_0_r.
+    exact (content_occs_intro b [] _ ci st it H1 H2).
+  - intros H H1 H2. cbn. apply in_or_app. right.
+    replace (b + S si) with (S b + si) by lia. now apply IH.
+Qed.
+
+(* what a consumer that indexes without checking may rely on, per component table *)
+Definition rel_blind (tbl : list component) (i : nat) (c : component) : Prop :=
+  match c_rel c with
+  | RRef j TgComponent =>
+      j < i /\ exists d, nth_error tbl j = Some d /\ is_definition (c_rel d) = true
+  | RDef rf _ =>
+      forall k, In k rf -> i < k /\ exists c', nth_error tbl k = Some c' /\ c_rel c' = RRef i TgComponent
+  | _ => True
+  end.
+
+Lemma rel_ok_blind tbl i c : rel_ok tbl -> nth_error tbl i = Some c -> rel_blind tbl i c.
+Proof.
+  intros R H. pose proof (R i c H) as Hc. unfold rel_blind. destruct (c_rel c) as [rf d|j tg].
+  - destruct Hc as [_ Hiff]. intros k Hk. apply Hiff in Hk as (c' & Hk & Hr).
+    split; [|eauto]. pose proof (R k c' Hk) as Hc'. rewrite Hr in Hc'. destruct Hc' as [_ Hc'].
+    now destruct (Hc' eq_refl).
+  - destruct tg; auto. destruct Hc as [_ Hc]. now apply Hc.
+Qed.
+
+Definition blind_indexing_ok (r : recipe) : Prop :=
+  forall si sec ci st it,
+    nth_error (r_sections r) si = Some sec ->
+    nth_error (sec_content sec) ci = Some (CStep st) ->
+    In it (st_items st) ->
+    match it with
+    | IText _ => True
+    | IIngredient i =>
+        exists c, nth_error (r_ingredients r) i = Some c /\ rel_blind (r_ingredients r) i c /\
+          match c_rel c with
+          | RRef j TgStep => j < ci /\ exists st', nth_error (sec_content sec) j = Some (CStep st')
+          | RRef j TgSection => j < si /\ exists sec', nth_error (r_sections r) j = Some sec'
+          | _ => True
+          end
+    | ICookware i => exists c, nth_error (r_cookware r) i = Some c /\ rel_blind (r_cookware r) i c
+    | ITimer i => exists t, nth_error (r_timers r) i = Some t
+    | IInline i => i < r_inline r
+    end.
+
+Lemma nth_error_exists {A} (l : list A) i : i < length l -> exists a, nth_error l i = Some a.
+Proof.
+  intro H. destruct (nth_error l i) as [a|] eqn:E; [eauto|]. apply nth_error_None in E. lia.
+Qed.
+
+Theorem blind_indexing r : recipe_ok r -> blind_indexing_ok r.
+Proof.
+  intros [Ho Hri Hrc Hrf Hs Hne Ht] si sec ci st it H1 H2 H3.
+  pose proof (sections_occs_intro 0 _ _ _ _ _ _ H1 H2 H3) as Hin. cbn [Nat.add] in Hin.
+  assert (Hidx : forall k i, item_index k it = Some i -> i < table_len r k).
+  { intros k i E. apply (incr_below_all _ _ _ (Ho k)).
+    eapply In_indices; [|exact E]. apply (in_map o_item) in Hin. exact Hin. }
+  destruct it as [tx|i|i|i|i]; auto.
+  - specialize (Hidx KIng i eq_refl). cbn in Hidx.
+    destruct (nth_error_exists _ _ Hidx) as [c Hc]. exists c. split; [exact Hc|].
+    split; [now apply rel_ok_blind|].
+    rewrite Forall_forall in Hrf. specialize (Hrf _ Hin). unfold occ_ok in Hrf. cbn in Hrf.
+    specialize (Hrf c Hc). unfold rel_kind in Hrf. destruct (c_rel c) as [rf d|j tg]; auto.
+    destruct tg; auto.
+    + destruct Hrf as [st' Hst']. apply nth_error_firstn_some in Hst' as [L Hst']. eauto.
+    + split; [exact Hrf|]. apply nth_error_exists. apply nth_error_lt in H1. lia.
+  - specialize (Hidx KCw i eq_refl). cbn in Hidx.
+    destruct (nth_error_exists _ _ Hidx) as [c Hc]. exists c. split; [exact Hc|].
+    now apply rel_ok_blind.
+  - specialize (Hidx KTm i eq_refl). cbn in Hidx. now apply nth_error_exists.
+  - exact (Hidx KIq i eq_refl).
 Qed.
